@@ -1,1 +1,184 @@
-pub fn hello() {}
+//! Support code shared by the generated conformance drivers.  Nothing in here knows what the
+//! right answer is: it only runs calls, catches panics as data and writes what it saw as NDJSON.
+use std::cell::RefCell;
+use std::collections::HashMap;
+use std::fmt::Write as _;
+use std::io::Write as _;
+use std::panic::{catch_unwind, AssertUnwindSafe};
+
+// ------------------------------------------------------------------ output
+pub struct Out {
+    w: std::io::BufWriter<std::fs::File>,
+    pub events: u64,
+}
+impl Out {
+    pub fn create(path: &str) -> Out {
+        Out { w: std::io::BufWriter::with_capacity(1 << 20, std::fs::File::create(path).expect("create trace")), events: 0 }
+    }
+    pub fn line(&mut self, s: &str) {
+        self.w.write_all(s.as_bytes()).unwrap();
+        self.w.write_all(b"\n").unwrap();
+        self.events += 1;
+    }
+    pub fn finish(mut self) {
+        self.w.flush().unwrap();
+    }
+}
+
+/// a string as a JSON array of code points
+pub fn jcps(s: &str) -> String {
+    let mut o = String::with_capacity(s.len() * 4 + 2);
+    o.push('[');
+    let mut first = true;
+    for c in s.chars() {
+        if !first { o.push(','); }
+        first = false;
+        write!(o, "{}", c as u32).unwrap();
+    }
+    o.push(']');
+    o
+}
+pub fn jopt_cps(s: Option<&str>) -> String {
+    match s { None => "[]".to_string(), Some(x) => format!("[{}]", jcps(x)) }
+}
+pub fn jlist<T: AsRef<str>>(xs: &[T]) -> String {
+    let mut o = String::from("[");
+    for (i, x) in xs.iter().enumerate() {
+        if i > 0 { o.push(','); }
+        o.push_str(x.as_ref());
+    }
+    o.push(']');
+    o
+}
+pub fn jstrs<T: AsRef<str>>(xs: &[T]) -> String {
+    let v: Vec<String> = xs.iter().map(|x| jcps(x.as_ref())).collect();
+    jlist(&v)
+}
+pub fn jbool(b: bool) -> &'static str { if b { "true" } else { "false" } }
+
+// ------------------------------------------------------------------ inputs
+/// inputs file: one line per (definition id, string): "<id>\t<cp>,<cp>,..." (empty string = no code points)
+pub fn load_inputs(path: &str) -> HashMap<u32, Vec<String>> {
+    let mut m: HashMap<u32, Vec<String>> = HashMap::new();
+    let txt = std::fs::read_to_string(path).expect("inputs file");
+    for l in txt.lines() {
+        let mut it = l.splitn(2, '\t');
+        let id: u32 = it.next().unwrap().parse().unwrap();
+        let rest = it.next().unwrap_or("");
+        let s: String = if rest.is_empty() { String::new() } else {
+            rest.split(',').map(|x| char::from_u32(x.parse::<u32>().unwrap()).unwrap()).collect()
+        };
+        m.entry(id).or_default().push(s);
+    }
+    m
+}
+
+// ------------------------------------------------------------------ panics are data
+pub fn quiet_panics() {
+    std::panic::set_hook(Box::new(|_| {}));
+}
+pub fn catch<T>(f: impl FnOnce() -> T) -> Result<T, String> {
+    match catch_unwind(AssertUnwindSafe(f)) {
+        Ok(v) => Ok(v),
+        Err(e) => Err(if let Some(s) = e.downcast_ref::<&str>() { s.to_string() }
+                      else if let Some(s) = e.downcast_ref::<String>() { s.clone() } else { "panic".to_string() }),
+    }
+}
+
+// ------------------------------------------------------------------ rng (xorshift64*)
+pub struct Rng(pub u64);
+impl Rng {
+    pub fn new(seed: u64) -> Rng { Rng(seed.wrapping_mul(0x9E3779B97F4A7C15) | 1) }
+    pub fn next(&mut self) -> u64 {
+        let mut x = self.0;
+        x ^= x >> 12; x ^= x << 25; x ^= x >> 27;
+        self.0 = x;
+        x.wrapping_mul(0x2545F4914F6CDD1D)
+    }
+    pub fn below(&mut self, n: u64) -> u64 { if n == 0 { 0 } else { self.next() % n } }
+}
+
+// ------------------------------------------------------------------ things generated enums refer to
+pub fn dw_u8() -> u8 { 7 }
+pub fn dw_i32() -> i32 { -3 }
+pub fn dw_bool() -> bool { true }
+pub fn dw_string() -> String { String::from("dw") }
+pub fn dw_opt() -> Option<u8> { Some(9) }
+
+#[derive(Debug, Clone, PartialEq)]
+pub struct Arr<const N: usize>(pub [u8; N]);
+impl<const N: usize> Default for Arr<N> { fn default() -> Self { Arr([0; N]) } }
+impl<const N: usize> Arr<N> { pub fn filled(x: u8) -> Self { Arr([x; N]) } }
+
+/// user-defined parse error: records every invocation of the constructor function
+#[derive(Debug, Clone, PartialEq)]
+pub struct UserErr(pub String);
+thread_local! { static USER_ERR_LOG: RefCell<Vec<String>> = RefCell::new(Vec::new()); }
+pub fn user_err(s: &str) -> UserErr {
+    USER_ERR_LOG.with(|l| l.borrow_mut().push(s.to_string()));
+    UserErr(s.to_string())
+}
+pub fn user_err_calls() -> usize { USER_ERR_LOG.with(|l| l.borrow().len()) }
+pub fn user_err_take() -> Vec<String> { USER_ERR_LOG.with(|l| std::mem::take(&mut *l.borrow_mut())) }
+
+// ------------------------------------------------------------------ probes
+pub trait Probe {
+    fn decl_index(&self) -> usize;
+    fn payload_ok(&self) -> bool;
+    /// the inner value of a default (catch-all) variant rendered with `{}`, if this is one
+    fn captured(&self) -> Option<String>;
+}
+pub trait ErrProbe {
+    /// ("nf", None) for strum::ParseError::VariantNotFound, ("ue", Some(payload)) for UserErr
+    fn enc(&self) -> (&'static str, Option<String>);
+}
+impl ErrProbe for strum::ParseError {
+    fn enc(&self) -> (&'static str, Option<String>) { match self { strum::ParseError::VariantNotFound => ("nf", None) } }
+}
+impl ErrProbe for UserErr {
+    fn enc(&self) -> (&'static str, Option<String>) { ("ue", Some(self.0.clone())) }
+}
+
+/// one parse result as a JSON record {k,i,pd,s,uc,ua}
+fn enc_result<E: Probe, X: ErrProbe>(r: &Result<Result<E, X>, String>, calls: &[String]) -> String {
+    let ua: Vec<String> = calls.iter().map(|c| jcps(c)).collect();
+    match r {
+        Err(p) => format!("{{\"k\":\"panic\",\"i\":0,\"pd\":false,\"s\":{},\"uc\":{},\"ua\":{}}}", jcps(p), calls.len(), jlist(&ua)),
+        Ok(Ok(v)) => match v.captured() {
+            Some(c) => format!("{{\"k\":\"c\",\"i\":{},\"pd\":true,\"s\":{},\"uc\":{},\"ua\":{}}}", v.decl_index(), jcps(&c), calls.len(), jlist(&ua)),
+            None => format!("{{\"k\":\"v\",\"i\":{},\"pd\":{},\"s\":[],\"uc\":{},\"ua\":{}}}", v.decl_index(), jbool(v.payload_ok()), calls.len(), jlist(&ua)),
+        },
+        Ok(Err(x)) => {
+            let (k, p) = x.enc();
+            format!("{{\"k\":\"{}\",\"i\":0,\"pd\":false,\"s\":{},\"uc\":{},\"ua\":{}}}", k, jcps(p.as_deref().unwrap_or("")), calls.len(), jlist(&ua))
+        }
+    }
+}
+
+/// Run FromStr and TryFrom<&str> on every input; one batched event.
+pub fn parse_batch<E, X>(o: &mut Out, def: u32, ins: &[String])
+where
+    E: Probe + core::str::FromStr<Err = X> + for<'x> core::convert::TryFrom<&'x str, Error = X>,
+    X: ErrProbe,
+{
+    let mut res: Vec<String> = Vec::with_capacity(ins.len());
+    let mut tf: Vec<String> = Vec::new();
+    let mut tf_same = true;
+    for (n, s) in ins.iter().enumerate() {
+        user_err_take();
+        let r = catch(|| <E as core::str::FromStr>::from_str(s));
+        let c1 = user_err_take();
+        let t = catch(|| <E as core::convert::TryFrom<&str>>::try_from(s.as_str()));
+        let c2 = user_err_take();
+        let a = enc_result(&r, &c1);
+        let b = enc_result(&t, &c2);
+        if a != b {
+            tf_same = false;
+            tf.push(format!("{{\"n\":{},\"r\":{}}}", n + 1, b));
+        }
+        res.push(a);
+    }
+    let ins_j: Vec<String> = ins.iter().map(|s| jcps(s)).collect();
+    o.line(&format!("{{\"op\":\"parse\",\"def\":{},\"ins\":{},\"res\":{},\"tf_same\":{},\"tf\":{}}}",
+        def, jlist(&ins_j), jlist(&res), jbool(tf_same), jlist(&tf)));
+}
